@@ -19,8 +19,9 @@ structure RunOut where
   final : Option St
 
 /-- src: `Interpreter::new`: a base context and the CORE procedures -/
-def initState (cfg : Cfg) (world : World) (filePath : Str) : St :=
-  { procs := FunTable.extend [] ((cfg.modules "CORE".toList).getD []), world := world, filePath := filePath }
+def initState (cfg : Cfg) (world : World) (filePath : Str) (budget : Nat := 40000) : St :=
+  { procs := FunTable.extend [] ((cfg.modules "CORE".toList).getD []), world := world, filePath := filePath,
+    budget := budget }
 
 def runTokens (cfg : Cfg) (fuel : Nat) (tokens : List Token) (world : World) (filePath : Str) : RunOut :=
   match parse (parseFuel tokens.length) tokens with
